@@ -75,6 +75,9 @@ func programs(t *testing.T, backend sim.Backend) {
 		if r := res.W.Cl.Runaway(); r != "" {
 			t.Fatalf("VERIF-INFRA: a call did not terminate (judged by C02 / C05): %s\n  program: %s", r, prog.String(steps))
 		}
+		if res.Void != "" {
+			t.Skip("void case: " + res.Void) // substrate defect (13.6): the case says nothing about the client
+		}
 		if res.Hung != "" || res.Infra != "" {
 			t.Fatalf("VERIF-INFRA: %s %s\n  program: %s", res.Hung, res.Infra, prog.String(steps))
 		}
@@ -110,6 +113,9 @@ func faults(t *testing.T, backend sim.Backend) {
 		eval := func(o scen.Outcome, plan string) {
 			if r := o.World.Cl.Runaway(); r != "" {
 				t.Fatalf("VERIF-INFRA: a call did not terminate (judged by C02 / C05): %s | plan=%s | %s", r, plan, p)
+			}
+			if o.Void != "" {
+				t.Skip("void case: " + o.Void)
 			}
 			if o.Hung != "" || o.Infra != "" {
 				t.Fatalf("VERIF-INFRA: %s %s | plan=%s | %s", o.Hung, o.Infra, plan, p)
@@ -200,6 +206,9 @@ func TestMonitorRegroup(t *testing.T) {
 		if r := res.W.Cl.Runaway(); r != "" {
 			t.Fatalf("VERIF-INFRA: a call did not terminate (judged by C02 / C05): %s\n  program: %s", r, prog.String(steps))
 		}
+		if res.Void != "" {
+			t.Skip("void case: " + res.Void) // substrate defect (13.6): the case says nothing about the client
+		}
 		if res.Hung != "" || res.Infra != "" {
 			t.Fatalf("VERIF-INFRA: %s %s\n  program: %s", res.Hung, res.Infra, prog.String(steps))
 		}
@@ -252,6 +261,9 @@ func TestMonitorHeartBeats(t *testing.T) {
 		res := prog.Run(backend, 1, false, true, keys, nil, steps, map[string]bool{})
 		if r := res.W.Cl.Runaway(); r != "" {
 			t.Fatalf("VERIF-INFRA: a call did not terminate (judged by C02 / C05): %s\n  program: %s", r, prog.String(steps))
+		}
+		if res.Void != "" {
+			t.Skip("void case: " + res.Void) // substrate defect (13.6): the case says nothing about the client
 		}
 		if res.Hung != "" || res.Infra != "" {
 			t.Fatalf("VERIF-INFRA: %s %s\n  program: %s", res.Hung, res.Infra, prog.String(steps))
